@@ -2,7 +2,8 @@
 import plugincheck
 
 THEOREMS = ["sticky_filter", "sticky_bind", "sticky_ranges", "dp_takes_reserve", "dp_takes_reserve_reachable",
-            "pools_routable_reachable", "routable_loaded"]
+            "pools_routable_reachable", "routable_loaded", "dp_waits_for_its_ip", "dp_offered_only_below_replicas",
+            "dp_filter_then_bind_uses_reserve", "dp_waits_nonvacuous", "dp_filter_then_bind_nonvacuous"]
 REFUTED = ["sticky_ranges_overlap_refuted"]
 KNOWN_FINDINGS = []
 
@@ -18,7 +19,7 @@ MANIFEST = {
             "without changing anything). 'For as long as the reservation exists' is C03's never_kept / immutable_kept_sts and "
             "C04's live_bound_owned. Tied to the code by reschedule / eviction / node-loss / rolling-update scenario histories "
             "(+ incarnation races + random histories) on the real FloatingIPPlugin vs the model step by step, and by the sticky "
-            "predicates evaluated on the implementation's dumps at every bind and filter.",
+            "predicates evaluated on the implementation's dumps at every bind and filter. Replica test of Filter (Proofs/PluginReplicasP.v): dp_waits_for_its_ip / dp_offered_only_below_replicas - a replacement pod of an immutable/never deployment or pool is offered a node exactly while the app uses fewer IPs than it has replicas (pool size); dp_filter_then_bind_uses_reserve - filter followed by bind binds the pod with an IP that waited in the app's reserve, never a fresh one.",
     "note": "trusted: Coq kernel (no axioms); harness fakes; section atomicity (DESIGN.md section 5); when a key holds several IPs "
             "and the pod requests no range, WHICH of them is taken is Go's map order (an oracle in the model): the theorem says it "
             "is one of the key's IPs",
